@@ -16,7 +16,7 @@ def run(ctx, wide, graphs, rule):
     gl = []
     for name, c, classes in graphs:
         gl.append(dict(name=name, constants=c, trace_constants={}, driver_args=[lib],
-                       variants=[("-" + k, [k]) for k in classes]))
+                       variants=[("-" + k, [k]) for k in classes], pairs=300 if ctx.tier == "quick" else 20000))
     r = pipeline.graphs_replay(ctx, "MC_Policy", "Trace_Policy", "vf.drv_policy", gl, INV, PROPS, maxlen=40)
     ctx.coverage.update(dict(
         states=res.distinct + r["states"], transitions=res.generated + r["transitions"],
@@ -24,6 +24,7 @@ def run(ctx, wide, graphs, rule):
         model_transitions_replayed=r["edges_replayed"], model_transitions_in_replayed_graphs=r["edges_total"],
         exhaustive=(r["edges_replayed"] == r["edges_total"]), calls_ok_failed_by_action=r["okcount"],
         key_classes=sorted(set(k for _, _, cl in graphs for k in cl)),
+        transition_pairs=dict(replayed=r.get("pairs_replayed", 0), in_graphs=r.get("pairs_total", 0)),
         samples=[s[:4] for s in r["samples"][:1]], rule=rule))
     ctx.assumptions += ["token objects are used (the rollback of session objects is the subject of C09)",
                         "one-attribute and short mixed templates from the sets in MC_Policy.tla"]
